@@ -13,6 +13,8 @@
 #include <unordered_map>
 
 #ifndef CHAISCRIPT_NO_THREADS
+#include <atomic>
+#include <cstddef>
 #include <mutex>
 #include <shared_mutex>
 #include <thread>
@@ -64,23 +66,33 @@ namespace chaiscript::detail::threading {
     Thread_Storage &operator=(const Thread_Storage &) = delete;
     Thread_Storage &operator=(Thread_Storage &&) = delete;
 
-    ~Thread_Storage() { t().erase(this); }
+    ~Thread_Storage() { t().erase(m_id); }
 
-    inline const T *operator->() const noexcept { return &(t()[this]); }
+    inline const T *operator->() const noexcept { return &(t()[m_id]); }
 
-    inline const T &operator*() const noexcept { return t()[this]; }
+    inline const T &operator*() const noexcept { return t()[m_id]; }
 
-    inline T *operator->() noexcept { return &(t()[this]); }
+    inline T *operator->() noexcept { return &(t()[m_id]); }
 
-    inline T &operator*() noexcept { return t()[this]; }
+    inline T &operator*() noexcept { return t()[m_id]; }
 
     void *m_key;
 
   private:
+    /// Process-wide unique id of this storage object. The object's address must not be used as the
+    /// key: only the destroying thread erases its entry, so a later object constructed at the same
+    /// address would inherit the stale data still held by other threads.
+    static std::size_t next_id() noexcept {
+      static std::atomic<std::size_t> s_next_id{0};
+      return ++s_next_id;
+    }
+
+    const std::size_t m_id = next_id();
+
     /// todo: is it valid to make this noexcept? The allocation could fail, but if it
     /// does there is no possible way to recover
-    static std::unordered_map<const void *, T> &t() noexcept {
-      static thread_local std::unordered_map<const void *, T> my_t;
+    static std::unordered_map<std::size_t, T> &t() noexcept {
+      static thread_local std::unordered_map<std::size_t, T> my_t;
       return my_t;
     }
   };
